@@ -4,6 +4,7 @@ import CookModel.Lemmas.DiagComp
 import CookModel.Lemmas.DiagAnalysis
 import CookModel.Lemmas.DiagMore
 import CookModel.Lemmas.DiagInside
+import CookModel.Lemmas.DiagInsideTimer
 import CookModel.Lemmas.DiagQuiet
 import CookModel.Lemmas.DiagAnalysisMore
 import CookModel.Lemmas.DiagInterRef
@@ -543,6 +544,26 @@ theorem C07_label_inside_cookware (s s' : BP α) (c : Loc (PCookware α)) (hw : 
   intro x hx
   have := hall x hx
   cases x <;> first | exact ⟨_, Or.inl rfl, this⟩ | exact ⟨_, Or.inr rfl, this⟩ | exact this.elim
+
+/-- the same for a timer (modifiers / alias not allowed, missing unit, missing quantity, neither name
+    nor quantity, and every diagnostic of the quantity reader): every label lies inside the timer's
+    span — with ONE exception by design: the warning `note-not-allowed:timer`, which `check_note` pushes
+    when a parenthesised note FOLLOWS the timer; its labels are on that note, i.e. right after the timer. -/
+theorem C07_label_inside_timer (s s' : BP α) (t : Loc (PTimer α)) (hw : WF s.toks)
+    (hp : s.panic = none) (hcur : s.cur ≤ s.toks.length)
+    (h : timerP s = (some (.timer t), s')) :
+    t.span.start = curOff s ∧
+    ∃ l, s'.evs.toList = s.evs.toList ++ l ∧ ∀ x ∈ l,
+      (∃ a b, x = .warning ⟨.warning, .parse, "note-not-allowed:timer", [a, b]⟩) ∨
+      ∃ d, (x = .error d ∨ x = .warning d) ∧
+        ∀ sp ∈ d.labels, t.span.start ≤ sp.start ∧ sp.start ≤ sp.stop ∧ sp.stop ≤ t.span.stop := by
+  obtain ⟨h1, l, hl, hall⟩ := timerP_labels_inside hw (⟨rfl, rfl, hp, hcur⟩ : G s.toks s.ext s) h
+  refine ⟨h1, l, hl, ?_⟩
+  intro x hx
+  rcases hall x hx with this | hn
+  · right
+    cases x <;> first | exact ⟨_, Or.inl rfl, this⟩ | exact ⟨_, Or.inr rfl, this⟩ | exact this.elim
+  · exact Or.inl hn
 
 /-! non-vacuity: the token list of `@&&x{}` is a block and `ingredient` succeeds on it (and pushes one error) -/
 example : WF C07_exDup.toks ∧ ∃ i s', ingredientP C07_exDup = (some (.ingredient i), s') := by
